@@ -501,3 +501,252 @@ func ruleFetchImpliesCheckout(c *core.Ctx) {
 		c.Undecided(rule, "anchor/git fetch", 0, "no function of pkg/packaging runs `git fetch`")
 	}
 }
+
+func init() {
+	reg("C18", ruleRewriterCopiesWholeNodes)
+	reg("C09", ruleRewriterCopiesWholeNodes)
+	reg("C08", ruleRewriterCopiesWholeNodes)
+	reg("C04", ruleSchemaViewsKeepModelOrder)
+	reg("C15", ruleSchemaViewsKeepModelOrder)
+	reg("C01", ruleSchemaViewsKeepModelOrder)
+	reg("C09", ruleValidationTablesNotRemadeInsideTheWalk)
+}
+
+// ---------------------------------------------------------------------------------------------------------------
+// RW1: the rewriter replaces a node by a COPY of the whole node (`x := *t`) with the rewritten children stored into
+// it. A node rebuilt from a composite literal that leaves fields out silently drops them (Namespace.References — the
+// import edges — has `json:"-"` and no test looks at it). Every composite literal of a node struct type inside the
+// rewriter sets every field of the struct.
+// ---------------------------------------------------------------------------------------------------------------
+func ruleRewriterCopiesWholeNodes(c *core.Ctx) {
+	const rule = "RW1"
+	c.Rule(rule, "pkg/dsl rewriter (defaultRewriteImpl and its helpers in rewriter.go): a replaced node is a copy of the whole node (`x := *t`); a composite literal of a node struct type there sets every field of the struct", 15)
+	p := c.Pkg("pkg/dsl")
+	if p == nil {
+		c.Undecided(rule, "anchor/pkg/dsl", 0, "package not found")
+		return
+	}
+	nodeTN, _ := p.Types.Scope().Lookup("Node").(*types.TypeName)
+	var nodeIface *types.Interface
+	if nodeTN != nil {
+		nodeIface, _ = nodeTN.Type().Underlying().(*types.Interface)
+	}
+	if nodeIface == nil {
+		c.Undecided(rule, "anchor/Node", 0, "interface Node not found")
+		return
+	}
+	info := p.TypesInfo
+	n := 0
+	for _, d := range c.AllDecls() {
+		if c.DeclPkg(d) != p || d.Body == nil || c.IsTestFile(d.Pos()) || !strings.HasSuffix(c.PosStr(d.Pos()), "") {
+			continue
+		}
+		if !strings.Contains(c.PosStr(d.Pos()), "/pkg/dsl/rewriter.go") {
+			continue
+		}
+		ast.Inspect(d.Body, func(m ast.Node) bool {
+			switch x := m.(type) {
+			case *ast.AssignStmt:
+				// x := *t with t a pointer to a node struct
+				if x.Tok == token.DEFINE && len(x.Rhs) == 1 {
+					if st, ok := x.Rhs[0].(*ast.StarExpr); ok {
+						if t := info.TypeOf(st.X); t != nil && types.Implements(t, nodeIface) {
+							n++
+							c.OK(rule, fmt.Sprintf("%s/copy of %s", c.FuncName(d), types.TypeString(t, func(*types.Package) string { return "" })), x.Pos(), "whole-node copy")
+						}
+					}
+				}
+			case *ast.CompositeLit:
+				t := info.TypeOf(x)
+				if t == nil {
+					return true
+				}
+				st, ok := t.Underlying().(*types.Struct)
+				if !ok || !(types.Implements(types.NewPointer(t), nodeIface) || types.Implements(t, nodeIface)) {
+					return true
+				}
+				n++
+				set := map[string]bool{}
+				positional := len(x.Elts) > 0
+				for _, e := range x.Elts {
+					if kv, ok := e.(*ast.KeyValueExpr); ok {
+						positional = false
+						if id, ok := kv.Key.(*ast.Ident); ok {
+							set[id.Name] = true
+						}
+					}
+				}
+				var missing []string
+				if !positional {
+					for i := 0; i < st.NumFields(); i++ {
+						if !set[st.Field(i).Name()] {
+							missing = append(missing, st.Field(i).Name())
+						}
+					}
+				}
+				c.Check(len(missing) == 0, rule, fmt.Sprintf("%s/literal %s", c.FuncName(d), types.TypeString(t, func(*types.Package) string { return "" })), x.Pos(), "the literal sets every field",
+					"the rewriter builds a "+types.TypeString(t, func(*types.Package) string { return "" })+" from a literal that leaves out "+strings.Join(missing, ", ")+": whatever the original node held there is lost in the rewritten tree (for Namespace.References: the import edges — the Python back end then emits no `from . import <ns>` for a package with computed fields that imports another)")
+			}
+			return true
+		})
+	}
+	if n == 0 {
+		c.Undecided(rule, "anchor/rewriter", 0, "no node copies found in pkg/dsl/rewriter.go")
+	}
+}
+
+// ---------------------------------------------------------------------------------------------------------------
+// NS2: the JSON views of the model (MarshalJSON in pkg/dsl) list cases, fields, values and steps in MODEL order.
+// The order of union cases (the case index is written), record fields, enum values and protocol steps is part of the
+// wire format; a view that sorts — even a copy — gives two models with different encodings the same schema text.
+// ---------------------------------------------------------------------------------------------------------------
+func ruleSchemaViewsKeepModelOrder(c *core.Ctx) {
+	const rule = "NS2"
+	c.Rule(rule, "pkg/dsl: no MarshalJSON method (nor a helper of json.go it calls) sorts or reverses anything: union cases, record fields, enum values, protocol steps and dimensions appear in the schema in model order, which is the order the wire format depends on", 8)
+	p := c.Pkg("pkg/dsl")
+	if p == nil {
+		c.Undecided(rule, "anchor/pkg/dsl", 0, "package not found")
+		return
+	}
+	info := p.TypesInfo
+	sorters := map[string]bool{"sort.Slice": true, "sort.SliceStable": true, "sort.Sort": true, "sort.Stable": true, "sort.Strings": true, "sort.Ints": true,
+		"slices.Sort": true, "slices.SortFunc": true, "slices.SortStableFunc": true, "slices.Reverse": true, "slices.Sorted": true, "slices.SortedFunc": true}
+	n := 0
+	seen := map[*ast.FuncDecl]bool{}
+	var visit func(root, d *ast.FuncDecl, depth int) token.Pos
+	visit = func(root, d *ast.FuncDecl, depth int) token.Pos {
+		if d == nil || d.Body == nil || depth > 3 {
+			return token.NoPos
+		}
+		bad := token.NoPos
+		ast.Inspect(d.Body, func(m ast.Node) bool {
+			ce, ok := m.(*ast.CallExpr)
+			if !ok {
+				return true
+			}
+			fn, _ := typeutil.Callee(info, ce).(*types.Func)
+			if fn == nil || fn.Pkg() == nil {
+				return true
+			}
+			if sorters[fn.Pkg().Name()+"."+fn.Name()] {
+				bad = ce.Pos()
+			} else if fn.Pkg() == p.Types {
+				if hd := c.Decl(fn); hd != nil && hd != root && !seen[hd] && strings.Contains(c.PosStr(hd.Pos()), "/pkg/dsl/json.go") {
+					seen[hd] = true
+					if b := visit(root, hd, depth+1); b != token.NoPos {
+						bad = b
+					}
+					delete(seen, hd)
+				}
+			}
+			return true
+		})
+		return bad
+	}
+	for _, d := range c.AllDecls() {
+		if c.DeclPkg(d) != p || d.Body == nil || d.Recv == nil || d.Name.Name != "MarshalJSON" || c.IsTestFile(d.Pos()) {
+			continue
+		}
+		n++
+		bad := visit(d, d, 0)
+		at := d.Pos()
+		if bad != token.NoPos {
+			at = bad
+		}
+		c.Check(bad == token.NoPos, rule, c.FuncName(d)+"/model order", at, "nothing is sorted or reversed on the way to the JSON text",
+			"this view sorts or reverses what it marshals: the schema text no longer reflects the order of the model. Two models that differ only in the order of union cases (or fields, values, steps) — and therefore in their encoding — embed the same schema, and a reader accepts and misdecodes the other's stream")
+	}
+	if n == 0 {
+		c.Undecided(rule, "anchor/MarshalJSON", 0, "no MarshalJSON method in pkg/dsl")
+	}
+}
+
+// ---------------------------------------------------------------------------------------------------------------
+// VT1: a table a validation pass fills while it walks the environment lives as long as the walk. A map declared
+// outside a visitor callback and captured by it is never re-made (`m = make(...)`, `m = map[..]..{}`, clear(m))
+// inside the callback: a rule that compares every definition with every earlier one ("tag combination already in
+// use", duplicate names) would otherwise see only the definitions since the last reset, e.g. of one namespace.
+// ---------------------------------------------------------------------------------------------------------------
+func ruleValidationTablesNotRemadeInsideTheWalk(c *core.Ctx) {
+	const rule = "VT1"
+	c.Rule(rule, "pkg/dsl validation passes: a map declared outside a visitor callback and captured by it is not re-made or cleared inside the callback (environment-wide uniqueness tables cover the whole walk)", 1)
+	p := c.Pkg("pkg/dsl")
+	if p == nil {
+		c.Undecided(rule, "anchor/pkg/dsl", 0, "package not found")
+		return
+	}
+	info := p.TypesInfo
+	n := 0
+	for _, d := range c.AllDecls() {
+		if c.DeclPkg(d) != p || d.Body == nil || c.IsTestFile(d.Pos()) || !strings.Contains(c.PosStr(d.Pos()), "/pkg/dsl/validation") {
+			continue
+		}
+		ast.Inspect(d.Body, func(m ast.Node) bool {
+			fl, ok := m.(*ast.FuncLit)
+			if !ok {
+				return true
+			}
+			// a visitor callback: has a parameter of type Node
+			isCb := false
+			for _, f := range fl.Type.Params.List {
+				if nt, ok := info.TypeOf(f.Type).(*types.Named); ok && nt.Obj().Name() == "Node" {
+					isCb = true
+				}
+			}
+			if !isCb {
+				return true
+			}
+			captured := map[types.Object]bool{}
+			ast.Inspect(fl.Body, func(k ast.Node) bool {
+				id, ok := k.(*ast.Ident)
+				if !ok {
+					return true
+				}
+				o, _ := info.Uses[id].(*types.Var)
+				if o == nil || o.IsField() || o.Pkg() != p.Types {
+					return true
+				}
+				if _, isMap := o.Type().Underlying().(*types.Map); !isMap {
+					return true
+				}
+				if o.Pos() < fl.Pos() && o.Pos() > d.Pos() { // declared in the enclosing function, before the literal
+					captured[o] = true
+				}
+				return true
+			})
+			for o := range captured {
+				n++
+				bad := token.NoPos
+				ast.Inspect(fl.Body, func(k ast.Node) bool {
+					switch y := k.(type) {
+					case *ast.AssignStmt:
+						if y.Tok == token.ASSIGN {
+							for _, l := range y.Lhs {
+								if id, ok := l.(*ast.Ident); ok && info.Uses[id] == types.Object(o) {
+									bad = y.Pos()
+								}
+							}
+						}
+					case *ast.CallExpr:
+						if id, ok := y.Fun.(*ast.Ident); ok && id.Name == "clear" && len(y.Args) == 1 {
+							if a, ok := y.Args[0].(*ast.Ident); ok && info.Uses[a] == types.Object(o) {
+								bad = y.Pos()
+							}
+						}
+					}
+					return true
+				})
+				at := o.Pos()
+				if bad != token.NoPos {
+					at = bad
+				}
+				c.Check(bad == token.NoPos, rule, fmt.Sprintf("%s/%s", c.FuncName(d), o.Name()), at, "the table is filled and consulted, never re-made, inside the walk",
+					"the table `"+o.Name()+"` is re-made inside the visitor callback: entries recorded before that point are forgotten, so the rule it implements compares a definition only with those visited since the reset (e.g. of the same namespace) and a conflict with an imported namespace is accepted")
+			}
+			return true
+		})
+	}
+	if n == 0 {
+		c.Undecided(rule, "anchor/captured tables", 0, "no visitor callback of a validation pass captures a map")
+	}
+}
